@@ -143,7 +143,13 @@ def std_transfer(I, fr, t, c, pth):
                 return True
         return False
 
-    # ------------------------------------------------------------------ slice::partition_point
+    # ------------------------------------------------------------------ integer conversions that cannot fail on 64-bit targets
+    if name == 'try_from' and trait == 'std::convert::TryFrom' and len(args) == 1 and (c.get('self_ty') in ('usize', 'u64', 'u128') and (c.get('targs') or [None, None])[-1] in ('u64', 'usize', 'u32', 'u16', 'u8')):
+        v = fr.operand(args[0])
+        if isinstance(v, (Int, BV)):
+            fr.storev(dest, Opt('none', v))        # Ok(v): widening or same-width unsigned conversion
+            return True
+
     if name == 'partition_point' and 'slice' in res and len(args) == 2:
         v = fr.deref_operand(args[0])
         for _ in range(4):
